@@ -198,9 +198,9 @@ Proof.
   - destruct (is_idle _); cbn [negb fst]; [|reflexivity]. destruct k as [|[|[|k]]]; reflexivity.
 Qed.
 
-(* hence: the borrowers never exceed total_tokens, unless total_tokens is assigned a value below the number
-   of tokens borrowed at that moment (and then no new borrower appears until enough of them released) *)
-Theorem lim_never_over_granted v s o : reach v s ->
+(* one step: `borrowed <= total` is preserved by every step except an assignment of total_tokens below the
+   number borrowed at that moment; in particular, once it holds again after such a lowering it keeps holding *)
+Theorem lim_within_total_preserved v s o : reach v s ->
   xle (length (borrowers s)) (total s) ->
   (forall t x, o = SetTotal t x -> xle (length (borrowers s)) x) ->
   xle (length (borrowers (fst (step s o)))) (total (fst (step s o))).
@@ -217,6 +217,50 @@ Proof.
   destruct Htot as [->|(t & x & -> & ->)].
   - destruct (total s); cbn in *; [lia|trivial].
   - specialize (Hset t x eq_refl). destruct x; cbn in *; [lia|trivial].
+Qed.
+
+(* a step that only ADDS borrowers (nobody leaves, total_tokens unchanged) starts from borrowed < total:
+   no step ever adds a borrower while borrowed >= total - in every reachable state, also over capacity *)
+Theorem lim_no_borrower_added_when_full v s o : reach v s ->
+  total (fst (step s o)) = total s ->
+  (forall b, In b (borrowers s) -> In b (borrowers (fst (step s o)))) ->
+  (exists b, In b (borrowers (fst (step s o))) /\ ~ In b (borrowers s)) ->
+  free (borrowers s) (total s) = true.
+Proof.
+  intros R Et Hkeep (b & Hb & Hnb).
+  pose proof (lim_borrowers_nodup v s R) as Hn.
+  destruct (lim_grant_only_if_free s o) as [Hincl|H]; [exfalso; apply Hnb, Hincl, Hb|].
+  assert (Hlen : length (b :: borrowers s) <= length (borrowers (fst (step s o)))).
+  { apply NoDup_incl_length; [now constructor|]. intros x [<-|Hx]; [exact Hb|now apply Hkeep]. }
+  rewrite Et in H. unfold free. destruct (total s) as [m|]; [|reflexivity].
+  cbn in H, Hlen. apply Nat.ltb_lt. lia.
+Qed.
+
+(* the reachable-state form: in every run in which total_tokens is never assigned a value below the number
+   of tokens borrowed at that moment, `borrowed <= total` holds in every state of the run.
+   (Without that proviso over-capacity states ARE reachable - ex_over_capacity_reachable - and then only
+   shrink: lim_grant_only_if_free, lim_no_borrower_added_when_full.) *)
+Fixpoint never_lowered_below_borrowed (s : st) (ops : list op) : Prop :=
+  match ops with
+  | [] => True
+  | o :: r => (forall t x, o = SetTotal t x -> xle (length (borrowers s)) x) /\
+              never_lowered_below_borrowed (fst (step s o)) r
+  end.
+
+Lemma never_over_granted_from v ops : forall s, reach v s -> xle (length (borrowers s)) (total s) ->
+  never_lowered_below_borrowed s ops ->
+  xle (length (borrowers (final step s ops))) (total (final step s ops)).
+Proof.
+  induction ops as [|o r IH]; intros s R Hle Hok; cbn; [exact Hle|].
+  destruct Hok as [H1 H2]. apply IH; [now apply reach_step| |exact H2].
+  now apply (lim_within_total_preserved v).
+Qed.
+
+Theorem lim_never_over_granted v ops : never_lowered_below_borrowed (init v) ops ->
+  xle (length (borrowers (final step (init v) ops))) (total (final step (init v) ops)).
+Proof.
+  intros Hok. apply (never_over_granted_from v); [exists []; reflexivity| |exact Hok].
+  cbn. destruct v; cbn; [lia|trivial].
 Qed.
 
 (* the pre-fix setter (wake max(new - old, 0) waiters) refutes the clause: 2 borrowers, total := 0, two
@@ -449,14 +493,31 @@ Definition f16b_ops : list op :=
   [AcqOnNowait 3 12; AcqOn 1 11; AcqOn 2 11; RelOn 3 12].
 
 Theorem lim_duplicate_waiter_refuted_pinned :
+  (* A: refutes lim_no_lost_waiter on the pre-fix step: untainted, task 2 blocked without a token, and yet it
+     owns no slot of the wait queue and a token is free *)
   (exists ops, let s := final step_f16_pinned (init (Some 1)) ops in
+     tainted s = false /\
      phase_of s 2 = Waiting 11 1 /\ evset s 1 = false /\ fcanc s 2 = false /\ mustc s 2 = false /\
-     queue s = [] /\ borrowers s = [] /\ free (borrowers s) (total s) = true /\ phase_of s 1 = Idle) /\
+     ~ In (11, 1) (queue s) /\ free (borrowers s) (total s) = true /\
+     queue s = [] /\ borrowers s = [] /\ phase_of s 1 = Idle) /\
+  (* B: refutes lim_wait_queue_keys_distinct (one task per borrower), lim_no_lost_waiter and first come first
+     served on the pre-fix step: untainted, tasks 1 and 2 both wait for 11, the token went to the LATER arrival
+     (11,1) while the earlier one (11,0), never cancelled, has no slot any more *)
   (exists ops, let s := final step_f16_pinned (init (Some 1)) ops in
-     phase_of s 1 = Waiting 11 0 /\ evset s 0 = false /\ phase_of s 2 = Waiting 11 1 /\ evset s 1 = true /\
+     tainted s = false /\
+     inprog s 1 11 /\ inprog s 2 11 /\
+     phase_of s 1 = Waiting 11 0 /\ evset s 0 = false /\ fcanc s 1 = false /\ ~ In (11, 0) (queue s) /\
+     phase_of s 2 = Waiting 11 1 /\ evset s 1 = true /\
      arrivals s = [(11, 0); (11, 1)] /\ queue s = [] /\ borrowers s = [11]).
 Proof.
-  split; [exists f16a_ops|exists f16b_ops]; vm_compute; auto 10.
+  split; [exists f16a_ops|exists f16b_ops]; vm_compute.
+  - refine (conj eq_refl (conj eq_refl (conj eq_refl (conj eq_refl (conj eq_refl (conj _ (conj eq_refl
+           (conj eq_refl (conj eq_refl eq_refl))))))))). intros [].
+  - refine (conj eq_refl (conj _ (conj _ (conj eq_refl (conj eq_refl (conj eq_refl (conj _ (conj eq_refl
+           (conj eq_refl (conj eq_refl (conj eq_refl eq_refl))))))))))).
+    + right. exists 0. reflexivity.
+    + right. exists 1. reflexivity.
+    + intros [].
 Qed.
 
 Example f16_fixed_at_head :
@@ -637,10 +698,44 @@ Example ex_direct_grant_hyp :
   let s := init (Some 1) in In 1 (borrowers (fst (step s (AcqOnNowait 1 1)))) /\ ~ In 1 (borrowers s).
 Proof. vm_compute. split; [now left|tauto]. Qed.
 
-Example ex_never_over_hyp :
+Example ex_within_total_hyp :
   let s := final step (init (Some 2)) [AcqOnNowait 1 1; AcqOnNowait 2 2] in
   xle (length (borrowers s)) (total s) /\ xle (length (borrowers s)) (Some 3).
 Proof. vm_compute. lia. Qed.
+
+(* a run with assignments of total_tokens (raise, lower to exactly the number borrowed, infinity) that never go
+   below the number borrowed, with waiters woken by the setter: the hypothesis of lim_never_over_granted *)
+Example ex_never_lowered_below_hyp :
+  never_lowered_below_borrowed (init (Some 1))
+    [AcqOnNowait 1 1; AcqOn 2 2; SetTotal 1 (Some 3); Resume 2; AcqOnNowait 3 3; SetTotal 1 (Some 3);
+     RelOn 1 1; SetTotal 1 (Some 2); AcqOn 1 1; SetTotal 1 None; Resume 1].
+Proof. vm_compute. repeat split; intros t x [=]; subst; cbn; lia. Qed.
+
+(* without the proviso over-capacity states are reachable: total lowered to 0 with two borrowers *)
+Example ex_over_capacity_reachable :
+  let s := final step (init (Some 2)) [AcqOnNowait 1 1; AcqOnNowait 2 2; SetTotal 1 (Some 0)] in
+  length (borrowers s) = 2 /\ total s = Some 0 /\ ~ xle (length (borrowers s)) (total s) /\
+  ~ never_lowered_below_borrowed (init (Some 2)) [AcqOnNowait 1 1; AcqOnNowait 2 2; SetTotal 1 (Some 0)].
+Proof.
+  vm_compute. refine (conj eq_refl (conj eq_refl (conj _ _))); [lia|].
+  intros (_ & _ & H & _). specialize (H 1 (Some 0) eq_refl). cbn in H. lia.
+Qed.
+
+(* a pure addition from a state below capacity: hypotheses of lim_no_borrower_added_when_full, also in an
+   over-capacity state no pure addition exists (the direct acquire must wait) *)
+Example ex_pure_addition_hyp :
+  let s := final step (init (Some 2)) [AcqOnNowait 1 1] in
+  let s' := fst (step s (AcqOnNowait 2 2)) in
+  total s' = total s /\ (forall b, In b (borrowers s) -> In b (borrowers s')) /\
+  In 2 (borrowers s') /\ ~ In 2 (borrowers s) /\
+  snd (step (final step (init (Some 2)) [AcqOnNowait 1 1; AcqOnNowait 2 2; SetTotal 1 (Some 0)])
+            (AcqOnNowait 3 3)) = RWouldBlock.
+Proof.
+  vm_compute. refine (conj eq_refl (conj _ (conj _ (conj _ eq_refl)))).
+  - intros b [<-|[]]. right. now left.
+  - now left.
+  - intros [H|[]]. discriminate.
+Qed.
 
 (* lowering below the number borrowed, 0 and infinity: the over-capacity state only shrinks *)
 Example ex_lowered :
